@@ -78,6 +78,9 @@ struct Outcome {
     /// Hook events of the server: (setups started, setups succeeded).
     setups: usize,
     setups_ok: usize,
+    /// The future returned by `rtr_listener` had completed (or panicked)
+    /// by the end of the case.
+    listener_finished: bool,
 }
 
 /// What the client sees on one connection after having sent a Reset Query.
@@ -128,34 +131,40 @@ fn execute(keepalive: Option<u64>, script: &[bool], burst: bool) -> Outcome {
             history, metrics, &config, NotifySender::new(), Some(listener)
         ).unwrap_or_else(|_| panic!("rtr_listener failed"))
     };
-    runtime.spawn(future);
+    let server = runtime.spawn(future);
 
     let mut out = Outcome::default();
     let connect = || TcpStream::connect_timeout(&addr, HANG);
+    // A refused connection: nobody listens any more.
+    let connect_error = |err: &std::io::Error| {
+        if err.kind() == std::io::ErrorKind::ConnectionRefused { "refused" } else { "hang" }
+    };
     if burst {
         let mut socks = Vec::new();
         for _ in script {
             match connect() {
-                Ok(mut sock) => { send_query(&mut sock); socks.push(Some(sock)) }
-                Err(_) => socks.push(None)
+                Ok(mut sock) => { send_query(&mut sock); socks.push(Ok(sock)) }
+                Err(err) => socks.push(Err(connect_error(&err)))
             }
         }
         for sock in socks.iter_mut() {
-            let res = match sock { Some(sock) => read_outcome(sock), None => "hang" };
+            let res = match sock { Ok(sock) => read_outcome(sock), Err(res) => *res };
             out.results.push(res);
-            if res == "hang" { break }
+            if res == "hang" || res == "refused" { break }
         }
     }
     else {
         for _ in script {
             let res = match connect() {
                 Ok(mut sock) => { send_query(&mut sock); read_outcome(&mut sock) }
-                Err(_) => "hang"
+                Err(err) => connect_error(&err)
             };
             out.results.push(res);
-            if res == "hang" { break }
+            if res == "hang" || res == "refused" { break }
         }
     }
+    // The future of `rtr_listener` never finishes while the server lives.
+    out.listener_finished = server.is_finished();
     runtime.shutdown_background();
     let log = sched::take_point_log();
     out.setups = log.iter().filter(|p| *p == "rtr.setup").count();
@@ -183,12 +192,29 @@ fn run_case(ctx: &mut Ctx, keepalive: Option<u64>, script: &[bool], burst: bool)
     let observed = json!({
         "results": out.results, "kernel_accepts_keepalive": kernel_ok,
         "server_setups": out.setups, "server_setups_ok": out.setups_ok,
+        "listener_future_finished": out.listener_finished,
     });
     let mut failed = false;
+    if out.listener_finished {
+        failed = true;
+        ctx.oracle_fail("listener-finished",
+            "the future returned by rtr_listener finished: the RTR server stopped listening",
+            &input, observed.clone());
+    }
     // The property on the real observations.
     let mut seen_failure = false;
     for (i, res) in out.results.iter().enumerate() {
         let ok = oks[i];
+        if *res == "refused" {
+            failed = true;
+            ctx.oracle_fail(
+                if seen_failure { "connection-after-failed-setup-refused" } else { "connection-refused" },
+                &format!("connection {i} was refused: the listening socket is gone{}",
+                    if seen_failure { " after an earlier connection failed its setup" } else { "" }),
+                &input, observed.clone()
+            );
+            break
+        }
         if *res == "hang" {
             failed = true;
             ctx.oracle_fail(
@@ -239,7 +265,19 @@ pub fn run_c19(ctx: &mut Ctx) {
         if run_input(ctx, &input) { failures += 1 }
     }
     // Kernel-decided outcomes: values around the kernel's limit (32767).
-    let keepalives = [Some(60u64), Some(32767), Some(32768), Some(40000), Some(0), None];
+    // ... and the boundaries of the option's domain (the config file accepts
+    // up to i64::MAX seconds, the command line up to u64::MAX; what is
+    // passed to the kernel is clamped to u32, and arithmetic on the
+    // `Duration` has its own limits at u64::MAX / k).
+    let keepalives = [
+        Some(60u64), Some(32767), Some(32768), Some(40000), Some(0), None,
+        Some(1), Some(i32::MAX as u64), Some(i32::MAX as u64 + 1),
+        Some(u32::MAX as u64), Some(u32::MAX as u64 + 1),
+        Some(u64::MAX / 1000), Some(u64::MAX / 1000 + 1),
+        Some(i64::MAX as u64), Some(i64::MAX as u64 + 1),
+        Some(u64::MAX / 10), Some(u64::MAX / 10 + 1),
+        Some(u64::MAX / 2), Some(u64::MAX / 2 + 1), Some(u64::MAX - 1), Some(u64::MAX),
+    ];
     for keepalive in keepalives {
         for len in 1..=3usize {
             for burst in [false, true] {
